@@ -21,6 +21,15 @@ type errClass struct {
 }
 
 func (a *Analysis) classifyErr(v ssa.Value) errClass {
+	// recursion guard (a helper that returns the result of calling itself)
+	if a.clsBusy == nil {
+		a.clsBusy = map[ssa.Value]bool{}
+	}
+	if a.clsBusy[v] || len(a.clsBusy) > 64 {
+		return errClass{Kind: "other", Desc: "recursive definition"}
+	}
+	a.clsBusy[v] = true
+	defer delete(a.clsBusy, v)
 	switch x := v.(type) {
 	case *ssa.Const:
 		if x.Value == nil {
@@ -28,6 +37,7 @@ func (a *Analysis) classifyErr(v ssa.Value) errClass {
 		}
 	case *ssa.UnOp:
 		if g := loadedGlobal(x); g != nil && g.Pkg != nil && a.P.InModule(g.Pkg) {
+			g = a.canonSentinel(g)
 			return errClass{Kind: "sentinel", G: g, Desc: g.Name()}
 		}
 	case *ssa.MakeInterface:
@@ -54,6 +64,9 @@ func (a *Analysis) classifyErr(v ssa.Value) errClass {
 					}
 				}
 			}
+		}
+		if c, ok := a.unwrappingError(x.X.Type()); ok {
+			return c
 		}
 		return a.classifyErr(x.X)
 	case *ssa.ChangeInterface:
@@ -209,6 +222,48 @@ func (a *Analysis) matches(v ssa.Value, g *ssa.Global) (bool, string) {
 }
 
 // ruleS1: the three sentinels are distinct variables, each assigned once, by its declaration, a fresh error.
+// unwrappingError: t (a module type T or *T) has the methods Error and Unwrap and neither Is
+// nor As, and every return of Unwrap gives one and the same sentinel: a value of that type
+// converted to error matches that sentinel (and nothing else of this module).
+func (a *Analysis) unwrappingError(t types.Type) (errClass, bool) {
+	base := t
+	if p, ok := t.(*types.Pointer); ok {
+		base = p.Elem()
+	}
+	n, ok := base.(*types.Named)
+	if !ok || n.Obj().Pkg() == nil || a.P.Root == nil || n.Obj().Pkg() != a.P.Root.Pkg {
+		return errClass{}, false
+	}
+	ms := a.P.SSA.MethodSets.MethodSet(t)
+	var unwrap *ssa.Function
+	hasError := false
+	for i := 0; i < ms.Len(); i++ {
+		switch ms.At(i).Obj().Name() {
+		case "Error":
+			hasError = true
+		case "Unwrap":
+			unwrap = a.P.SSA.MethodValue(ms.At(i))
+		case "Is", "As":
+			return errClass{}, false
+		}
+	}
+	if !hasError || unwrap == nil || len(unwrap.Blocks) == 0 || unwrap.Signature.Results().Len() != 1 || !isErrorType(unwrap.Signature.Results().At(0).Type()) {
+		return errClass{}, false
+	}
+	var g *ssa.Global
+	for _, ret := range returnsOf(unwrap) {
+		c := a.classifyErr(returnedValue(ret, 0))
+		if c.Kind != "sentinel" || (g != nil && g != c.G) {
+			return errClass{}, false
+		}
+		g = c.G
+	}
+	if g == nil || a.touchesPackageStateExceptLoads(unwrap) {
+		return errClass{}, false
+	}
+	return errClass{Kind: "wrap", G: g, Desc: fmt.Sprintf("%s{…}, whose Unwrap returns %s", n.Obj().Name(), g.Name())}, true
+}
+
 // kindIsField analyses the Is method of *T: if it is exactly
 //
 //	func (e *T) Is(target error) bool { t, ok := target.(*T); return ok && t.F == e.F }
@@ -458,8 +513,17 @@ func (a *Analysis) ruleS1() {
 		desc := ""
 		if ok {
 			st := ws[0].Instr.(*ssa.Store)
+			if h := loadedGlobal(st.Val); h != nil && a.G.SentAlias[h] == g {
+				// re-exported: the value the inner variable's declaration gives it
+				for _, w := range a.Ef.Writes[h] {
+					if !w.Test {
+						st = w.Instr.(*ssa.Store)
+						desc = "the value of " + h.Pkg.Pkg.Name() + "." + h.Name() + ", itself assigned once, by its declaration: "
+					}
+				}
+			}
 			c := a.classifyErr(st.Val)
-			desc = c.Desc
+			desc += c.Desc
 			ok = c.Kind == "fresh"
 		}
 		if ok {
@@ -501,6 +565,12 @@ type gateSpec struct {
 // its neighbours, and the intervals in between.  The result is used only if every class is
 // decided (the helper certainly holds / certainly does not hold on the whole class).
 func (a *Analysis) semanticPredicate(f *ssa.Function, bits int) *predSets {
+	return a.semanticPredicateSlice(f, bits, nil)
+}
+
+// semanticPredicateSlice: the same for f(table []int, x int) (either order) with the table fixed
+// to the given constants (nil: a one-argument predicate).
+func (a *Analysis) semanticPredicateSlice(f *ssa.Function, bits int, table []int64) *predSets {
 	res := f.Signature.Results()
 	if res.Len() == 0 {
 		return nil
@@ -520,6 +590,17 @@ func (a *Analysis) semanticPredicate(f *ssa.Function, bits int) *predSets {
 		lo, hi = math.MinInt32, math.MaxInt32
 	}
 	points := map[int64]bool{lo: true, hi: true, 0: true}
+	for _, c := range table {
+		if c >= lo && c <= hi {
+			points[c] = true
+			if c > lo {
+				points[c-1] = true
+			}
+			if c < hi {
+				points[c+1] = true
+			}
+		}
+	}
 	for fn := range a.reachableFrom(f) {
 		for _, b := range fn.Blocks {
 			for _, in := range b.Instrs {
@@ -545,10 +626,14 @@ func (a *Analysis) semanticPredicate(f *ssa.Function, bits int) *predSets {
 		ps = append(ps, p)
 	}
 	sort.Slice(ps, func(i, j int) bool { return ps[i] < ps[j] })
-	out := &predSets{}
+	out := &predSets{Relied: map[*ssa.Global]bool{}}
 	classify := func(ctx *Ctx, set ZSet) bool {
+		ctx.IntTable = table
 		e := NewEval(a.P, a.G, ctx)
 		rv, _ := e.Run(f)
+		for gl := range e.Relied {
+			out.Relied[gl] = true
+		}
 		for _, ev := range e.Events {
 			if ev.Status != Discharged && ev.Rule != "" {
 				return false // it may panic or was not fully evaluated on this class
@@ -581,14 +666,34 @@ func (a *Analysis) semanticPredicate(f *ssa.Function, bits int) *predSets {
 		}
 		return true
 	}
+	// an interval the helper is not decided on as a whole (it compares its argument with values
+	// it reads from a table, which are not among the constants above) is halved until it is, within
+	// a budget of evaluations
+	budget := 1500
+	var interval func(l, h int64) bool
+	interval = func(l, h int64) bool {
+		budget--
+		if budget < 0 {
+			return false
+		}
+		if l == h {
+			p := l
+			return classify(&Ctx{Name: fmt.Sprintf("pred:%s(%d)", f.Name(), p), WordCount: &p}, ZOf(p))
+		}
+		saveT, saveF := out.T, out.F
+		if classify(&Ctx{Name: fmt.Sprintf("pred:%s[%d..%d]", f.Name(), l, h), SizeKind: "W", SizeRange: &[2]int64{l, h}}, ZRange(l, h)) {
+			return true
+		}
+		out.T, out.F = saveT, saveF
+		mid := l + (h-l)/2
+		return interval(l, mid) && interval(mid+1, h)
+	}
 	for i, p := range ps {
-		p := p
-		if !classify(&Ctx{Name: fmt.Sprintf("pred:%s(%d)", f.Name(), p), WordCount: &p}, ZOf(p)) {
+		if !interval(p, p) {
 			return nil
 		}
 		if i+1 < len(ps) && ps[i+1] > p+1 {
-			l, h := p+1, ps[i+1]-1
-			if !classify(&Ctx{Name: fmt.Sprintf("pred:%s[%d..%d]", f.Name(), l, h), SizeKind: "W", SizeRange: &[2]int64{l, h}}, ZRange(l, h)) {
+			if !interval(p+1, ps[i+1]-1) {
 				return nil
 			}
 		}
@@ -599,6 +704,7 @@ func (a *Analysis) semanticPredicate(f *ssa.Function, bits int) *predSets {
 func (a *Analysis) ruleGates() {
 	semPredMu.Lock()
 	semPredByProg[a.P.SSA] = a.semanticPredicate
+	semPredSliceByProg[a.P.SSA] = a.semanticPredicateSlice
 	semPredMu.Unlock()
 	bits := a.P.Cfg.IntBits()
 	maxInt := int64(math.MaxInt64)
@@ -626,8 +732,12 @@ func (a *Analysis) ruleGates() {
 			a.R.Unk("G1", "NewMnemonicByEntropy/subject", a.P.Pos(a.NME.Pos()), "", "no []byte parameter")
 		} else {
 			subj := map[ssa.Value]bool{}
+			same := map[ssa.Value]bool{param: true}
+			for _, v := range spilledLoads(param) {
+				same[v] = true
+			}
 			for _, c := range callsIn(a.NME) {
-				if calleeName(c) == "len" && c.Common().Args[0] == ssa.Value(param) {
+				if calleeName(c) == "len" && same[c.Common().Args[0]] {
 					subj[c.Value()] = true
 				}
 			}
@@ -646,7 +756,11 @@ func (a *Analysis) ruleGates() {
 		if param == nil {
 			a.R.Unk("G2", "NewMnemonic/subject", a.P.Pos(a.NM.Pos()), "", "no int parameter")
 		} else {
-			res := AnalyseGate(a.NM, map[ssa.Value]bool{param: true}, a.NM.Blocks[0], ZRange(minInt, maxInt), bits, a.gateTables, a.isModuleFunc)
+			subj := map[ssa.Value]bool{param: true}
+			for _, v := range spilledLoads(param) {
+				subj[v] = true
+			}
+			res := AnalyseGate(a.NM, subj, a.NM.Blocks[0], ZRange(minInt, maxInt), bits, a.gateTables, a.isModuleFunc)
 			a.Gate2 = a.checkGate(gateSpec{rule: "G2", fn: a.NM, what: param.Name(), spec: specWordCounts(), sentinel: "ErrWordLen", allowLateFail: true, strResult: true, kind: "W"}, res)
 		}
 	}
@@ -657,6 +771,8 @@ func (a *Analysis) ruleGates() {
 		// makes the call
 		var tok *ssa.Call
 		n := 0
+		handSplit := false
+		splitLimit := int64(0)
 		fns := []*ssa.Function{a.CM}
 		for f := range a.reachableFrom(a.CM) {
 			if f != a.CM {
@@ -671,6 +787,30 @@ func (a *Analysis) ruleGates() {
 					if cc, ok := c.(*ssa.Call); ok {
 						tok = cc
 						n++
+					}
+				case "strings.SplitN":
+					// strings.SplitN(s, sep, k), k a positive constant: min(count, k) pieces, the
+					// first k-1 of them as strings.Split cuts them.  Treated as Split with the
+					// subject confined to [1,k]; a gate that lets k itself through would take a
+					// longer sentence for one of k words (checked below)
+					if cc, ok := c.(*ssa.Call); ok {
+						tok = cc
+						n++
+						if k, isC := intConst(cc.Call.Args[2]); isC && k > 0 {
+							handSplit = true
+							splitLimit = k
+						} else {
+							n += 100 // not a form that is understood
+						}
+					}
+				default:
+					// a hand-written strings.Split of the module (byteSplitter)
+					if cc, ok := c.(*ssa.Call); ok {
+						if _, isSplit := a.P.byteSplitter(cc.Call.StaticCallee()); isSplit {
+							tok = cc
+							n++
+							handSplit = true
+						}
 					}
 				}
 			}
@@ -788,10 +928,14 @@ func (a *Analysis) ruleGates() {
 				}
 			}
 			lo := int64(0)
-			if calleeName(tok) == "strings.Split" {
+			if calleeName(tok) == "strings.Split" || handSplit {
 				lo = 1
 			}
-			res := AnalyseGate(gateFn, subj, defBlock, ZRange(lo, maxLen), bits, a.gateTables, a.isModuleFunc)
+			hi := maxLen
+			if splitLimit > 0 {
+				hi = splitLimit
+			}
+			res := AnalyseGate(gateFn, subj, defBlock, ZRange(lo, hi), bits, a.gateTables, a.isModuleFunc)
 			g3 := gateSpec{rule: "G3", fn: gateFn, entry: a.CM, what: "len(tokens)", spec: specWordCounts(), sentinel: "ErrWordLen", allowLateFail: true, kind: "N"}
 			if gateFn == tokFn {
 				g3.emptyIn = map[ssa.Value]bool{tok.Call.Args[0]: true}
@@ -801,6 +945,30 @@ func (a *Analysis) ruleGates() {
 				}
 			}
 			a.Gate3 = a.checkGate(g3, res)
+			if splitLimit > 0 {
+				// with SplitN the count k stands for every sentence of k or more tokens
+				tp := a.P.InstrPos(tok)
+				passes := false
+				if a.Gate3 != nil {
+					for _, w := range a.Gate3.Accept {
+						if w >= splitLimit {
+							passes = true
+						}
+					}
+					if a.Gate3.Extra.Contains(splitLimit) {
+						passes = true
+					}
+				}
+				ws := specWordCounts()
+				switch {
+				case a.Gate3 == nil || passes:
+					a.R.Bad("G3", "CheckMnemonic/split-limit", tp, "", "strings.SplitN cuts at most %d pieces and the gate lets a count of %d through: a longer sentence is taken for one of %d words", splitLimit, splitLimit, splitLimit)
+				case splitLimit <= ws[len(ws)-1]:
+					a.R.Bad("G3", "CheckMnemonic/split-limit", tp, "", "strings.SplitN cuts at most %d pieces: a sentence of %d words cannot be told from a longer one", splitLimit, splitLimit)
+				default:
+					a.R.OK("G3", "CheckMnemonic/split-limit", tp, "", "strings.SplitN(…, %d): every count the gate lets through is below the limit, where SplitN and Split agree", splitLimit)
+				}
+			}
 		}
 	}
 	n := 0
@@ -814,6 +982,55 @@ func (a *Analysis) ruleGates() {
 		}
 	}
 	a.R.Counts["G.gates"] = n
+}
+
+// spilledLoads: a parameter captured by a closure lives in a cell (`t0 = new T (p); *t0 = p`).
+// If that one store is the only one, in the function and in every closure that captures the
+// cell, each load of the cell in the function yields the parameter: those loads.
+func spilledLoads(p *ssa.Parameter) []ssa.Value {
+	if p.Referrers() == nil {
+		return nil
+	}
+	var out []ssa.Value
+	for _, ref := range *p.Referrers() {
+		st, ok := ref.(*ssa.Store)
+		if !ok || st.Val != ssa.Value(p) {
+			continue
+		}
+		cell, ok := st.Addr.(*ssa.Alloc)
+		if !ok {
+			continue
+		}
+		good := true
+		var loads []ssa.Value
+		for _, cr := range *cell.Referrers() {
+			switch x := cr.(type) {
+			case *ssa.Store:
+				if x != st {
+					good = false
+				}
+			case *ssa.UnOp:
+				if x.Op != token.MUL {
+					good = false
+				}
+				loads = append(loads, x)
+			case *ssa.MakeClosure:
+				fn, _ := x.Fn.(*ssa.Function)
+				for i, b := range x.Bindings {
+					if b == ssa.Value(cell) && (fn == nil || i >= len(fn.FreeVars) || !onlyLoaded(fn.FreeVars[i])) {
+						good = false
+					}
+				}
+			case *ssa.DebugRef:
+			default:
+				good = false
+			}
+		}
+		if good {
+			out = append(out, loads...)
+		}
+	}
+	return out
 }
 
 func (a *Analysis) isLang(t types.Type) bool {
@@ -863,6 +1080,73 @@ func (a *Analysis) underEmptyInput(b *ssa.BasicBlock, vals map[ssa.Value]bool) b
 	return false
 }
 
+// gateExit is one way out of a gated function as the gate rules see it: a return instruction,
+// or — when the function has a single `return result, err` whose operands are φ-nodes of the
+// returning block (results kept in variables and set on every branch) — one incoming edge of
+// that block with the values the φ-nodes take on it.
+type gateExit struct {
+	ret        *ssa.Return
+	blk        *ssa.BasicBlock // block whose reach set applies (the predecessor for a split exit)
+	errv, strv ssa.Value
+	reach      ZSet
+	reached    bool
+	label      string
+}
+
+func (a *Analysis) gateExits(gs gateSpec, res *GateResult) []gateExit {
+	var out []gateExit
+	for _, ret := range returnsOf(gs.fn) {
+		b := ret.Block()
+		errv := returnedValue(ret, len(ret.Results)-1) // sees through `*cell = v; rundefers; return *cell`
+		var strv ssa.Value
+		if len(ret.Results) > 1 {
+			strv = returnedValue(ret, 0)
+		}
+		ephi, isPhi := errv.(*ssa.Phi)
+		if !isPhi || ephi.Block() != b || len(ephi.Edges) != len(b.Preds) || res.Pre[b] {
+			reach, reached := res.Reach[b]
+			out = append(out, gateExit{ret: ret, blk: b, errv: errv, strv: strv, reach: reach, reached: reached, label: exitLabel(ret)})
+			continue
+		}
+		sphi, _ := strv.(*ssa.Phi)
+		for i, p := range b.Preds {
+			ev := ephi.Edges[i]
+			sv := strv
+			if sphi != nil && sphi.Block() == b && i < len(sphi.Edges) {
+				sv = sphi.Edges[i]
+			}
+			reach, reached := res.Edge[[2]*ssa.BasicBlock{p, b}]
+			if !reached {
+				reach, reached = res.Reach[p]
+			}
+			out = append(out, gateExit{ret: ret, blk: p, errv: ev, strv: sv, reach: reach, reached: reached, label: fmt.Sprintf("%s<-%s", exitLabel(ret), valueLabel(ev))})
+		}
+	}
+	return out
+}
+
+// valueLabel names a returned value for an exit label.
+func valueLabel(v ssa.Value) string {
+	switch x := v.(type) {
+	case *ssa.Const:
+		if x.Value == nil {
+			return "nil"
+		}
+		return x.Value.String()
+	case *ssa.UnOp:
+		if g := loadedGlobal(x); g != nil {
+			return g.Name()
+		}
+	case *ssa.Extract:
+		if c, ok := x.Tuple.(*ssa.Call); ok {
+			return calleeName(c) + "()"
+		}
+	case *ssa.Call:
+		return calleeName(x) + "()"
+	}
+	return "value"
+}
+
 func (a *Analysis) checkGate(gs gateSpec, res *GateResult) *GateInfo {
 	r := a.R
 	gi := &GateInfo{Res: res, Spec: gs.spec, Subject: gs.what}
@@ -876,13 +1160,12 @@ func (a *Analysis) checkGate(gs gateSpec, res *GateResult) *GateInfo {
 	}
 	var success, reject, late ZSet
 	nReject := 0
-	for _, ret := range returnsOf(gs.fn) {
-		b := ret.Block()
+	for _, gx := range a.gateExits(gs, res) {
+		ret, b, errv, strv := gx.ret, gx.blk, gx.errv, gx.strv
 		rp := a.P.InstrPos(ret)
-		reach, reached := res.Reach[b]
-		errv := returnedValue(ret, len(ret.Results)-1) // sees through `*cell = v; rundefers; return *cell`
+		reach, reached := gx.reach, gx.reached
 		isNil := isNilConst(errv)
-		key := fmt.Sprintf("%s/exit@block%s", fk, exitLabel(ret))
+		key := fmt.Sprintf("%s/exit@block%s", fk, gx.label)
 		if res.Pre[b] && len(gs.emptyIn) > 0 && a.underEmptyInput(b, gs.emptyIn) {
 			reach, reached = ZOf(gs.emptyN), true
 			r.OK(gs.rule, key+"/empty-input", rp, "", "taken only when the input is the empty string, i.e. with %s = %d", gs.what, gs.emptyN)
@@ -924,7 +1207,7 @@ func (a *Analysis) checkGate(gs gateSpec, res *GateResult) *GateInfo {
 		if ex, ok := errv.(*ssa.Extract); ok {
 			if c, ok := ex.Tuple.(*ssa.Call); ok {
 				if callee := c.Call.StaticCallee(); callee != nil && callee.Pkg != nil && a.P.InModule(callee.Pkg) && callee != gs.fn {
-					if ex0, ok := returnedValue(ret, 0).(*ssa.Extract); !gs.strResult || ok && ex0.Tuple == ex.Tuple {
+					if ex0, ok := strv.(*ssa.Extract); !gs.strResult || ok && ex0.Tuple == ex.Tuple {
 						delegated = true
 					}
 				}
@@ -959,7 +1242,7 @@ func (a *Analysis) checkGate(gs gateSpec, res *GateResult) *GateInfo {
 				r.OK(gs.rule+"e", key+"/error", rp, "", "rejected %s returns %s", gs.what, desc)
 			}
 			if gs.strResult {
-				if s, isC := strConst(returnedValue(ret, 0)); !isC || s != "" {
+				if s, isC := strConst(strv); !isC || s != "" {
 					r.Bad(gs.rule+"e", key+"/empty", rp, "", "rejected %s does not return the empty string", gs.what)
 				} else {
 					r.OK(gs.rule+"e", key+"/empty", rp, "", "returns \"\"")
